@@ -213,6 +213,9 @@ func parseInto(result *Version, input string) error {
 		return fmt.Errorf("version string has embedded spaces")
 	}
 
+	result.Epoch = 0
+	result.Revision = ""
+
 	colon := strings.Index(trimmed, ":")
 	if colon != -1 {
 		epoch, err := strconv.ParseInt(trimmed[:colon], 10, 64)
